@@ -38,6 +38,7 @@ pub struct TxSt {
     pub writer: Option<UtpStreamWriteHalf>,
     pub dw: Arc<CountWaker>,
     pub ww: Arc<CountWaker>,
+    pub wb: Arc<CountWaker>,
     pub pos: usize,
 }
 
@@ -49,6 +50,7 @@ impl TxSt {
             user_tx,
             dw: Default::default(),
             ww: Default::default(),
+            wb: Default::default(),
             pos: 0,
         }
     }
@@ -56,9 +58,10 @@ impl TxSt {
     fn show(&self) -> String {
         let c = self.user_tx.consumer.lock();
         format!(
-            "dw={} ww={} len={} cap={}",
+            "dw={} ww={} wb={} len={} cap={}",
             self.dw.take(),
             self.ww.take(),
+            self.wb.take(),
             c.occupied_len(),
             c.capacity().get()
         )
@@ -101,6 +104,24 @@ pub fn step_txring(t: &mut TxSt, args: &[&str]) -> String {
             (Ok(n), Some(w)) if n <= 1 << 20 => {
                 let b: Vec<u8> = (0..n).map(|j| (((t.pos + j) * 7 + 3) % 251) as u8).collect();
                 let r = match Pin::new(w).poll_write(&mut cx, &b) {
+                    Poll::Ready(Ok(n)) => {
+                        t.pos += n;
+                        format!("ready:{n}")
+                    }
+                    Poll::Ready(Err(e)) => ioerr(&e).to_string(),
+                    Poll::Pending => "pending".into(),
+                };
+                format!("{r} {}", t.show())
+            }
+            _ => "bad-op".into(),
+        },
+        // the same write half polled by a second task (waker B)
+        ["writeposb", n] => match (n.parse::<usize>(), t.writer.as_mut()) {
+            (Ok(n), Some(w)) if n <= 1 << 20 => {
+                let wb: Waker = t.wb.clone().into();
+                let mut cxb = Context::from_waker(&wb);
+                let b: Vec<u8> = (0..n).map(|j| (((t.pos + j) * 7 + 3) % 251) as u8).collect();
+                let r = match Pin::new(w).poll_write(&mut cxb, &b) {
                     Poll::Ready(Ok(n)) => {
                         t.pos += n;
                         format!("ready:{n}")
